@@ -196,7 +196,9 @@ func genAllocProgram(r *RNG) *N {
 	case 3:
 		return nLen(nBi("filter", rng(), nBin(">", nPtr(), nInt(r.Range(0, 6)))))
 	case 4:
-		return nLen(nBi("map", nBin("..", nInt(1), nInt(r.Range(2, 5))), nLen(rng())))
+		// outer bounds read from the environment (D in 0..5): a literal range would be
+		// built at compile time by the optimiser, and then is not a run-time allocation
+		return nLen(nBi("map", nBin("..", nInt(1), nID("D")), nLen(rng())))
 	case 5:
 		return nMap(nPair("k1", nLen(rng())), nPair("k2", nID("A")), nPair("k3", nArr(nID("A"), nID("B"))))
 	default:
